@@ -44,7 +44,7 @@ META = {
     "level_note": "Trusted: TLC, the transcription of the statement into the invariants, harness/wire.py, SimConnection's "
                   "reactor contract (close() sets last_error during the handshake as the shipped reactors do), stand-in "
                   "lz4/snappy callables following the driver's calling convention. Bounds: reply sequences <= MaxLen "
-                  "(5 quick / 6 thorough); versions 1,3,4,5 quick, 1-6 thorough (v6 as beta, checksummed like v5); DSE versions not explored.",
+                  "(5 quick / 6 thorough); versions 1,4,5,DSE_V2 quick, 1-6 (v6 as beta, checksummed like v5) and DSE_V1/DSE_V2 (not checksummed) thorough.",
     "design_ref": "5.2 C47",
 }
 
@@ -94,7 +94,8 @@ def describe(path):
 
 def run(ctx):
     from harness.replay import handshake as hs
-    consts = {"Versions": {1, 3, 4, 5}, "MaxLen": 5} if ctx.quick else {"Versions": {1, 2, 3, 4, 5, 6}, "MaxLen": 6}
+    # 65 / 66 = DSE_V1 / DSE_V2 (0x41 / 0x42): above v5 numerically but without checksummed framing
+    consts = {"Versions": {1, 4, 5, 66}, "MaxLen": 5} if ctx.quick else {"Versions": {1, 2, 3, 4, 5, 6, 65, 66}, "MaxLen": 6}
     consts.update(Fine=False, EarlySet=False, CloseKinds={"record_set", "no_set"})
     cfg = tlc.write_cfg(os.path.join(ctx.scratch, "hs.cfg"), constants=consts, invariants=INVARIANTS, deadlock=False)
     res, states = tlc.enumerate_states("Handshake", cfg, ctx.scratch, coverage=True, timeout=1500)
@@ -223,7 +224,7 @@ def run(ctx):
         raise tlc.MachineryError("binding self-test failed: corrupted expectation not detected by replay")
 
     # ---- code -> spec: recorded random handshakes validated by TLC
-    tconsts = {"Versions": {1, 2, 3, 4, 5, 6}, "MaxLen": 12, "Fine": False, "EarlySet": False,
+    tconsts = {"Versions": {1, 2, 3, 4, 5, 6, 65, 66}, "MaxLen": 12, "Fine": False, "EarlySet": False,
                "CloseKinds": {"record_set", "no_set"}}
     n_tr = 400 if ctx.quick else 5000
     traces = [hs.record(ctx.rng, tconsts["Versions"], 10) for _ in range(n_tr)]
@@ -272,7 +273,7 @@ def run(ctx):
     ctx.note("traces_accepted", accepted)
     ctx.evaluations = replayed + good
     ctx.assumptions += [
-        "reply sequences bounded by MaxLen; protocol versions 1-6 (v6 with allow_beta_protocol_version; DSE versions not explored)",
+        "reply sequences bounded by MaxLen; protocol versions 1-6 (v6 with allow_beta_protocol_version) and DSE_V1/DSE_V2 (0x41/0x42)",
         "SimConnection reproduces the reactors' close() contract; harness/wire.py encodes/decodes frames and segments correctly",
         "lz4/snappy replaced by stand-ins with the driver's calling convention (real libraries are not installed)",
         "ERROR kinds other than bad credentials after the credentials/auth response may be classified either way "
